@@ -20,13 +20,13 @@ def run(repo, chk):
                        'results are zipped onto lines in iterator order. The function equals its reference form.')
     chk.note_undecided('independence from batch composition (depends on the network)')
     R = Rules(repo, chk)
-    refcheck.run_all(R, repo, chk, 'RECUR', 'ocr_ref.py', WHAT, skip=('base_init',))
+    refcheck.run_all(R, repo, chk, 'RECUR', 'ocr_ref.py', WHAT)
     PL = [E + ':BaseEngineLineOCR.process_lines']
     R.run('PAIR', pair_ids, repo, Soft(chk), soft_for=PL)
     R.run('PAIR', pair_part, repo, Soft(chk), soft_for=PL)
     R.run('PAIR', pair_window, repo, Soft(chk), soft_for=PL)
     R.run('PAIR', pair_zip, repo, Soft(chk), soft_for=['pero_ocr.document_ocr.page_parser:PageOCR.process_page'])
-    chk.expect('RECUR', 4)
+    chk.expect('RECUR', 5)
     chk.expect('PAIR', 12)
 
 
